@@ -35,4 +35,12 @@ theorem c04_aggregate {ν ε : Type} (results : List (Model.Archive.MemberResult
     (Model.Archive.completeManifest results).allValid = some (results.all (fun r => r.valid)) := by
   simp [Model.Archive.completeManifest, Model.Archive.conj, List.all_map]
 
+/-- a branch that is not executed cannot touch the verdict (or anything else): when the left side of
+    `left -> right` does not hold, the state after the component is the state after `left` alone,
+    whatever `right` is (a `fail()`, a `fail_and_stop()`, an assignment, …) -/
+theorem c04_unexecuted_branch (fuel : Nat) (env : Env) (l r : Node) (s : ES)
+    (h : ((evalM fuel env l s).1 == some true) = false) :
+    (evalWhen (fuel + 1) env l r s).2 = (evalM fuel env l s).2 :=
+  Proofs.Matcher.when_false fuel env l r s h
+
 end Props.C04
